@@ -265,6 +265,9 @@ func (r *Run) Finish() {
 	cov["samples"] = r.samples
 	cov["distinct_outcomes"] = len(r.outcomes)
 	sort.Strings(r.assume)
+	if r.assume == nil {
+		r.assume = []string{}
+	}
 	e := map[string]any{
 		"property_id": r.ID, "tier": r.Tier, "seed": r.Seed, "level": r.Level,
 		"coverage": cov, "assumptions": r.assume, "wall_s": wall, "violations": len(r.viol),
